@@ -99,6 +99,15 @@ CHECKS.update({
    ref='DESIGN.md 5 (C14)'),
 })
 
+CHECKS.update({
+ 'C13': dict(
+   technique='harness-enforced contracts (CBMC): inductive invariant over the operations storeLastData / isTrue with a monotone non-strict clock; loop-complete checks of hasField / checkValue / combined conditions against existential specifications',
+   level='proof',
+   text='For any history of updates (Message::storeLastData with arbitrary data, several updates may share a second) and queries, SimpleCondition::isTrue is proved to return exactly "the most recently stored data satisfies the condition" (or "seen" for a condition without values) by an invariant preserved by both operations; SimpleNumericCondition::checkValue is true iff the decoded value lies in one of the ranges; a combined condition is true iff all parts are; DataFieldSet::hasField(name, kind) iff a field of that kind (named so, or any) exists, for every field count up to MAX_POS=24 and every mix of kinds.',
+   note=TB + 'The value of the stored data (decodeLastData*) is an environment stub (ghost truth value that changes only when the stored data changes); vector capacities 24 fields / 8 ranges / 8 parts are model bounds with unwinding assertions; Condition::create / resolve / derive string handling and MessageMap::resolveConditions are not under contract.',
+   ref='DESIGN.md 5 (C13)'),
+})
+
 NOT_APPLICABLE = {
 }
 NOT_YET = [ 'C08', 'C09', 'C10', 'C13', 'C16', 'C17', 'C18', 'C19', 'C20']
